@@ -7,7 +7,7 @@ MODULE = {
     "library": dict(RE_LIB),
     "functions": {
         "is_telegram_message_id": {"types": {"value": "Str"}, "returns": "Bool", "ensures": []},
-        "is_telegram_url": {"types": {"url": "Obj"}, "returns": "Bool", "isinstance": {"url,SplitResult": False}, "ensures": []},
+        "is_telegram_url": {"types": {"url": "Obj", "hostname": "Opt[Str]"}, "returns": "Bool", "ensures": []},  # total: get_hostname swallows urlsplit's ValueError
         "parse_telegram_url": {
             "types": {"url": "Obj", "parsed": "Obj", "path": "Seq[Str]"},
             "returns": "Opt[Obj]", "raises": {"ValueError": None}, "ensures": [],
